@@ -26,7 +26,7 @@ theorem Msg.enc_ok_small {m : Msg} (h : m.enc.err = none) : m.length < 16777216 
 the sense of the independent specification, as the content of the message returned. -/
 theorem decMsg_parses (cfg : Cfg) (dict : Lookup) (bs : Bytes) (m : Msg)
     (h : decMsg cfg dict bs = .ok m) (hlen : bs.length = m.length) (hnl : NoLieList m.avps) :
-    Parses dict bs m.abs := by
+    Parses cfg.tables dict bs m.abs := by
   obtain ⟨hb, body, e1, e2, e3, e4, hc, hw, hl⟩ := decMsg_faithful cfg dict bs m h hlen hnl
   obtain ⟨t1, _, t3, t4⟩ := decMsg_typed cfg dict bs m h
   have h24 : m.length < 16777216 := Msg.enc_ok_small (by rw [e4])
@@ -49,7 +49,8 @@ theorem SMsg.conc_abs (s : SMsg) (hv : ValidAvps s.avps) : s.conc.abs = s := by
 
 /-- **completeness.** Whatever parses as `s`, with groups nested no deeper than the decoder's limit, is accepted -
 under any leniency, whatever its padding octets and reserved flag bits contain - and what is returned has content `s`. -/
-theorem decMsg_of_parses (cfg : Cfg) (dict : Lookup) (bs : Bytes) (s : SMsg) (hp : Parses dict bs s)
+theorem decMsg_of_parses (cfg : Cfg) (dict : Lookup) (bs : Bytes) (s : SMsg) (hf : cfg.tables.Fit)
+    (hp : Parses cfg.tables dict bs s)
     (hd : depthAvps s.avps ≤ cfg.limit) : decMsg cfg dict bs = .ok s.conc ∧ s.conc.abs = s := by
   obtain ⟨hcmd, happ, hv, hty, hsmall, hsize, hmasked⟩ := hp
   obtain ⟨g1, g2, g3⟩ := concAvps_good s.avps hv
@@ -92,20 +93,19 @@ theorem decMsg_of_parses (cfg : Cfg) (dict : Lookup) (bs : Bytes) (s : SMsg) (hp
     omega
   have hca : s.conc.avps = concAvps s.avps := rfl
   refine decMsg_rt cfg dict s.conc x2 g2 g1 hty' rfl h24 hcmd happ ?_ ?_ hdep (by rw [hx2, hmask, hca]) ?_
-  · simp only [cmdKnown, List.mem_cons, List.not_mem_nil, or_false, decide_eq_true_eq] at hcmd
-    simp only [SMsg.conc]; omega
-  · simp only [appKnown, List.mem_cons, List.not_mem_nil, or_false, decide_eq_true_eq] at happ
-    simp only [SMsg.conc]; omega
+  · exact Tables.cmd_lt hf hcmd
+  · exact Tables.app_lt hf happ
   · rw [hca, ← hmask, hm2]
     have := encList_spec (concAvps s.avps) g1 g2
     rwa [g3] at this
 
 /-- **uniqueness.** The octets determine the message: two readings of one frame are equal. -/
-theorem parses_unique (dict : Lookup) (bs : Bytes) (s s' : SMsg) (h : Parses dict bs s) (h' : Parses dict bs s') :
+theorem parses_unique (T : Tables) (hf : T.Fit) (dict : Lookup) (bs : Bytes) (s s' : SMsg)
+    (h : Parses T dict bs s) (h' : Parses T dict bs s') :
     s = s' := by
-  let cfg : Cfg := ⟨fun _ _ => false, max (depthAvps s.avps) (depthAvps s'.avps)⟩
-  obtain ⟨d1, a1⟩ := decMsg_of_parses cfg dict bs s h (Nat.le_max_left _ _)
-  obtain ⟨d2, a2⟩ := decMsg_of_parses cfg dict bs s' h' (Nat.le_max_right _ _)
+  let cfg : Cfg := ⟨fun _ _ => false, max (depthAvps s.avps) (depthAvps s'.avps), T⟩
+  obtain ⟨d1, a1⟩ := decMsg_of_parses cfg dict bs s hf h (Nat.le_max_left _ _)
+  obtain ⟨d2, a2⟩ := decMsg_of_parses cfg dict bs s' hf h' (Nat.le_max_right _ _)
   rw [d1] at d2
   have : s.conc = s'.conc := by injection d2
   rw [← a1, ← a2, this]
@@ -141,13 +141,14 @@ end
 
 /-- the executable reader used as run-time oracle: the model decoder with no leniency and a nesting budget as large as
 the frame (i.e. none), accepting only frames of exactly their declared size -/
-def Spec.read (dict : Lookup) (bs : Bytes) : Option SMsg :=
-  match decMsg ⟨fun _ _ => false, bs.length⟩ dict bs with
+def Spec.read (T : Tables) (dict : Lookup) (bs : Bytes) : Option SMsg :=
+  match decMsg ⟨fun _ _ => false, bs.length, T⟩ dict bs with
   | .ok m => if bs.length = m.length then some m.abs else none
   | _ => none
 
 /-- **the reader is correct**: it returns `s` exactly when `bs` parses as `s` -/
-theorem read_correct (dict : Lookup) (bs : Bytes) (s : SMsg) : Spec.read dict bs = some s ↔ Parses dict bs s := by
+theorem read_correct (T : Tables) (hf : T.Fit) (dict : Lookup) (bs : Bytes) (s : SMsg) :
+    Spec.read T dict bs = some s ↔ Parses T dict bs s := by
   constructor
   · intro h
     unfold Spec.read at h
@@ -166,7 +167,7 @@ theorem read_correct (dict : Lookup) (bs : Bytes) (s : SMsg) : Spec.read dict bs
     have hdep : depthAvps s.avps ≤ bs.length := by
       have := depthAvps_le s.avps
       rw [hp.size, hlen]; omega
-    obtain ⟨hd, ha⟩ := decMsg_of_parses ⟨fun _ _ => false, bs.length⟩ dict bs s hp hdep
+    obtain ⟨hd, ha⟩ := decMsg_of_parses ⟨fun _ _ => false, bs.length, T⟩ dict bs s hf hp hdep
     obtain ⟨g1, g2, g3⟩ := concAvps_good s.avps hp.valid
     have hbody : (encodeAvps s.avps).length = lenList (concAvps s.avps) := by
       have := encodeAvps_length (concAvps s.avps) g1 g2
@@ -183,8 +184,9 @@ open Spec
 
 /-- what the encoder produces for a consistent, typed message is a frame that an independent reader reads back as
 exactly that content -/
-theorem enc_parses (dict : Lookup) (m : Msg) (hg : m.Good) (hcmd : cmdKnown m.cmd = true) (happ : appKnown m.app = true)
-    (hty : TypedList dict m.avps) (h24 : m.length < 16777216) : Parses dict (Spec.encode m.abs) m.abs := by
+theorem enc_parses (T : Tables) (dict : Lookup) (m : Msg) (hg : m.Good) (hcmd : T.cmdKnown m.cmd = true)
+    (happ : T.appKnown m.app = true)
+    (hty : TypedList dict m.avps) (h24 : m.length < 16777216) : Parses T dict (Spec.encode m.abs) m.abs := by
   have hs := Msg.enc_spec m hg.wf hg.cons hg.len h24
   have hls := encList_spec m.avps hg.wf hg.cons
   have hfix := encList_fix m.avps hg.wf hg.cons (by rw [hls])
